@@ -227,7 +227,18 @@ class TableRun:
             if kind != 'ok' or r is None:
                 if kind != 'ok':
                     m = chk.prove(self.name(f'refused-path/{order}/no-panic'), pc, z3.BoolVal(True), extra=assume)
-                    if m is not None: chk.mismatches.append(f'lookup_route panics on a refused path: {r}')
+                    if m is not None:
+                        # refused paths of every length, with multi-byte characters at every offset near the lengths a message might cut at
+                        c = concretise(m, self.all_versions + [rq.v])
+                        req = {'method': 'GET', 'version': c.get(rq.v.name)}
+                        paths = ['/%ff'] + ['/' + 'a' * k + '\u00e9\u20ac' * 3 + 'a' * pad + '/%ff' for k in (13, 29, 30, 61, 62, 93, 94, 125, 126, 253, 254, 509) for pad in (0, 40)]
+                        case = {'op': 'router', 'endpoints': [e.json(c) for e in self.eps], 'order': list(order), 'requests': [dict(req, path=p_) for p_ in paths]}
+                        nat = replay([case])[0]
+                        res = nat.get('results') or []
+                        bad = nat.get('panicked') or [x for x in res if x.get('err', {}).get('status') != 400]
+                        chk.counterexample(f'lookup_route panics on a refused path ({r}); native, refused paths of many lengths: '
+                                           f'{nat.get("panicked") or [(x.get("ok", {}).get("operation_id"), x.get("err", {}).get("status")) for x in res][:6]}', case, bool(bad),
+                                           role=self.which + ':refused-path-panic')
                 continue
             good = r[0] == 'err' and r[1] == 400
             m = chk.prove(self.name(f'refused-path-is-a-400-without-endpoint/{order}'), pc, z3.BoolVal(not good), extra=assume)
